@@ -828,16 +828,6 @@ Definition file_char_width : bytes :=
 Lemma decode_total_refuted_width : load_result E0 file_char_width = Panic PFmtWidth.
 Proof. vm_compute. reflexivity. Qed.
 
-(** an INTERVAL value "1 DAY TO": [Interval::new] indexes past the token list *)
-Definition file_interval_to : bytes :=
-  write_header ++ w_u32 0 ++ w_u32 0 ++ w_u32 1
-  ++ w_string (lit "T") ++ w_u32 1 ++ w_string (lit "A") ++ w_string (lit "INTEGER") ++ w_bool true
-  ++ w_u32 0 ++ w_u32 0
-  ++ w_string (lit "T") ++ w_u64 1 ++ [bin_tag_Interval] ++ w_string (lit "1 DAY TO").
-
-Lemma decode_total_refuted_temporal : load_result E0 file_interval_to = Panic (PTemporal 3).
-Proof. vm_compute. reflexivity. Qed.
-
 (** a table without columns and a row count of 2^64-1: the row loop never touches the input *)
 Definition file_zero_cols : bytes :=
   write_header ++ w_u32 0 ++ w_u32 0 ++ w_u32 1
